@@ -21,6 +21,7 @@ import (
 	"fmt"
 	"io"
 	"regexp"
+	"runtime/debug"
 	"strconv"
 	"strings"
 	"time"
@@ -45,6 +46,7 @@ type Case struct {
 	Toks        []TokAttr       `json:"toks"`
 	Xf          map[string]json.RawMessage `json:"xf"`
 	XfSample    json.RawMessage `json:"xf_sample"`
+	UToks       []string        `json:"utoks"`
 	What        string          `json:"what"`
 	Seed        int64           `json:"seed"`
 	Count       int             `json:"count"`
@@ -81,6 +83,7 @@ type Result struct {
 	BindError    string      `json:"bind_error,omitempty"`
 	HarnessError string      `json:"harness_error,omitempty"`
 	Observed     any         `json:"observed,omitempty"`
+	Skipped      string      `json:"skipped,omitempty"`
 }
 
 func (r *Result) violate(stage, kind, mutation, via, frame, detail string) {
@@ -100,13 +103,35 @@ func (r *Result) drift(what, detail string) {
 	}
 }
 
-func main() { sup.Main(handle) }
+func main() {
+	// The SDK's legitimate recursion is a few frames per schema level; a runaway recursion shall die in
+	// milliseconds, not after growing a goroutine stack to the default limit of 1 GB.
+	debug.SetMaxStack(64 << 20)
+	sup.Main(handle)
+}
+
+// caseClass: the class of a case for the crash budget (see budget.go).
+func caseClass(c *Case) string {
+	switch c.Mode {
+	case "c10":
+		return fmt.Sprintf("c10/%s/%s:%s/%s", c.Target, c.Stage, c.Cause, mutationClass(c))
+	case "c09":
+		return "c09/" + c.Target + "/" + rootKind(c.AST)
+	case "rand":
+		return "rand/" + c.What
+	}
+	return c.Mode
+}
 
 func handle(raw json.RawMessage) any {
 	var c Case
 	if err := json.Unmarshal(raw, &c); err != nil {
 		return &Result{HarnessError: "bad case: " + err.Error()}
 	}
+	if !begin(caseClass(&c), raw) {
+		return &Result{Skipped: "crash class over its limit: " + caseClass(&c)}
+	}
+	defer end()
 	switch c.Mode {
 	case "bind":
 		return doBind(&c)
@@ -763,6 +788,9 @@ func rootKind(a *AST) string {
 }
 
 func doC09(c *Case, r *Result, replay any) {
+	if len(c.UToks) > 0 {
+		unitTokens = c.UToks
+	}
 	a := c.AST
 	target := c.Target
 	feats := features(a)
